@@ -229,8 +229,11 @@ func c19Periodic(rc *RunCtx, c *c19cfg) {
 		return
 	}
 	c19Subset(rc, have, want, fmt.Sprintf("after a crash during the periodic dump (%d of the file's writes reached the disk, %d bytes)", disk.CrashAfterWrites, c.dumpLen))
-	if rc.Viol == nil && disk.Writes["p1"] <= disk.CrashAfterWrites && len(have) < 1024 {
-		rc.Fail("complete_periodic_dump_lost_entries", "the periodic dump completed (%d writes) but only %d entries were reloaded", disk.Writes["p1"], len(have))
+	if rc.Viol == nil && disk.Writes["p1"] <= disk.CrashAfterWrites {
+		simrt.Probe("c19.periodic_dump_completed")
+		if len(have) == 0 {
+			rc.Fail("complete_periodic_dump_lost_entries", "the periodic dump completed (%d writes, %d bytes) but nothing was reloaded", disk.Writes["p1"], c.dumpLen)
+		}
 	}
 	B.Close()
 }
